@@ -41,13 +41,15 @@ theorem C04_addBlock_gen (env : Env) (l : Ledger) (ts prev : Int64) (txs : List 
 
 /-! ### verifyBlock -/
 
-theorem Gen_verifyBlockGuards_spec (prev now : Int64) (reward total : UInt64) (bts iv tts : Int64)
-    (hno : I64ok (prev.toInt + iv.toInt)) :
+theorem Gen_verifyBlockGuards_spec (prev now : Int64) (reward total : UInt64) (bts iv tts : Int64) (hi : 0 ≤ iv.toInt) :
     Gen.verifyBlockGuards prev now reward total bts iv tts =
-      [decide (bts.toInt ≠ prev.toInt + iv.toInt), decide (bts.toInt = 0), decide (bts.toInt > now.toInt),
-       decide (bts.toInt < tts.toInt), decide (tts.toInt < prev.toInt), decide (reward.toNat > total.toNat)] := by
-  simp only [Gen.verifyBlockGuards, Int64.bne_iff, Int64.beq_iff, Int64.toInt_add_of_ok prev iv hno, Int64.toInt_zero,
-    gt_iff_lt, Int64.lt_iff_toInt_lt, UInt64.lt_iff_toNat_lt]
+      [decide (2 ^ 63 ≤ prev.toInt + iv.toInt), decide (bts.toInt ≠ (prev + iv).toInt), decide (bts.toInt = 0),
+       decide (bts.toInt > now.toInt), decide (bts.toInt < tts.toInt), decide (tts.toInt < prev.toInt),
+       decide (reward.toNat > total.toNat)] := by
+  have hw : decide ((prev + iv).toInt < prev.toInt) = decide (2 ^ 63 ≤ prev.toInt + iv.toInt) :=
+    decide_eq_decide.mpr (by rw [← Int64.lt_iff_toInt_lt]; exact (Int64.add_wraps_iff prev iv hi).1)
+  simp only [Gen.verifyBlockGuards, Int64.bne_iff, Int64.beq_iff, Int64.toInt_zero,
+    gt_iff_lt, Int64.lt_iff_toInt_lt, UInt64.lt_iff_toNat_lt, hw]
 
 /-- what `verifyBlock` does once the block's date is accepted -/
 def verifyBlockBody (env : Env) (cfg : Cfg) (l : Ledger) (b : Block) (prevTs : Int) : Except String Unit :=
@@ -58,41 +60,59 @@ def verifyBlockBody (env : Env) (cfg : Cfg) (l : Ledger) (b : Block) (prevTs : I
     else if reward > total then .error "reward-exceeds"
     else .ok ()
 
-/-- **C04 (regenerated guards).**  The three date conditions `verifyBlock` tests before anything else — the block
-    is dated exactly one interval after its predecessor, not 0, not after the verifier's time — are the first three
-    conditions regenerated from the source. -/
+/-- **C04 (regenerated guards).**  The date conditions `verifyBlock` tests before anything else — the expected date
+    `previous + interval` does not overflow int64 (fix: commit e06ad63), the block is dated exactly there, not 0, not
+    after the verifier's time — are the first four conditions regenerated from the source.  No hypothesis on the
+    dates: they are int64 values, whatever a neighbour sent; the interval is not negative. -/
 theorem C04_verifyBlock_gen (env : Env) (cfg : Cfg) (l : Ledger) (b : Block) (prev now bts iv tts : Int64)
-    (reward total : UInt64) (hb : b.ts = bts.toInt) (hi : cfg.interval = iv.toInt)
-    (hno : I64ok (prev.toInt + iv.toInt)) :
+    (reward total : UInt64) (hb : b.ts = bts.toInt) (hi : cfg.interval = iv.toInt) (hi0 : 0 ≤ iv.toInt) :
     Ledger.verifyBlock env cfg l b prev.toInt now.toInt =
       match Gen.verifyBlockGuards prev now reward total bts iv tts with
       | true :: _ => .error "bad-block-ts"
-      | _ :: true :: _ => .error "zero-block-ts"
-      | _ :: _ :: true :: _ => .error "future-block"
+      | _ :: true :: _ => .error "bad-block-ts"
+      | _ :: _ :: true :: _ => .error "zero-block-ts"
+      | _ :: _ :: _ :: true :: _ => .error "future-block"
       | _ => verifyBlockBody env cfg l b prev.toInt := by
-  rw [Gen_verifyBlockGuards_spec prev now reward total bts iv tts hno]
-  unfold Ledger.verifyBlock verifyBlockBody
-  rw [hb, hi]
-  by_cases h0 : bts.toInt = prev.toInt + iv.toInt
-  · by_cases h1 : bts.toInt = 0
-    · simp [h0, h1]
-      rw [← h0, h1]; simp
-    · by_cases h2 : bts.toInt > now.toInt
-      · simp [h1, h2]
-        rw [← h0]; simp [h1, h2]
-      · simp [h1, h2]
-        rw [← h0]; simp [h1, h2]
-        rfl
-  · simp [h0]
+  rw [Gen_verifyBlockGuards_spec prev now reward total bts iv tts hi0]
+  have hlt := Int64.toInt_lt bts
+  by_cases hov : (2 : Int) ^ 63 ≤ prev.toInt + iv.toInt
+  · -- the exact sum does not fit: the code refuses on the overflow test, the model because no int64 date equals it
+    rw [show decide ((2 : Int) ^ 63 ≤ prev.toInt + iv.toInt) = true from decide_eq_true hov]
+    have hne : bts.toInt ≠ prev.toInt + iv.toInt := by omega
+    unfold Ledger.verifyBlock
+    rw [hb, hi]
+    simp [hne]
+  · rw [show decide ((2 : Int) ^ 63 ≤ prev.toInt + iv.toInt) = false from decide_eq_false hov]
+    have hsum := (Int64.add_wraps_iff prev iv hi0).2 (by omega)
+    rw [hsum]
+    unfold Ledger.verifyBlock verifyBlockBody
+    rw [hb, hi]
+    by_cases h0 : bts.toInt = prev.toInt + iv.toInt
+    · by_cases h1 : bts.toInt = 0
+      · simp [h0, h1]
+        rw [← h0, h1]; simp
+      · by_cases h2 : bts.toInt > now.toInt
+        · simp [h1, h2]
+          rw [← h0]; simp [h1, h2]
+        · simp [h1, h2]
+          rw [← h0]; simp [h1, h2]
+          rfl
+    · simp [h0]
+
+/-- **C04 (the defect behind the fix).**  Without the overflow test the regenerated date conditions were satisfied
+    by a block dated `previous + interval` in WRAPPED arithmetic: first block at 2^63 − 30 s, next one "one minute
+    later" at −2^63 + 30 s − 1 — not zero, not in the future.  Conditions 1–3 are false here; only condition 0 refuses. -/
+example : (Gen.verifyBlockGuards 9223372006854775807 1700000100000000000 0 0 (-9223372006854775809) 60000000000
+    (-9223372006854775809)).take 4 = [true, false, false, false] := by decide
 
 /-- **C04 (regenerated guards).**  The date window of an ordinary transaction of a neighbour block — not after its
-    block, not before the previous block — is conditions 3 and 4 regenerated from the source. -/
+    block, not before the previous block — is conditions 4 and 5 regenerated from the source. -/
 theorem C04_verifyTxs_window_gen (env : Env) (cfg : Cfg) (l : Ledger) (b : Block) (t : Tx) (rest : List Tx)
     (rewarded : Bool) (rw tot : Nat) (prev now bts iv tts : Int64) (reward total : UInt64)
     (hb : b.ts = bts.toInt) (ht : t.ts = tts.toInt) (hr : t.hasReward = false)
-    (hno : I64ok (prev.toInt + iv.toInt)) :
+    (hi0 : 0 ≤ iv.toInt) :
     Ledger.verifyTxs env cfg l b prev.toInt (t :: rest) rewarded rw tot =
-      match (Gen.verifyBlockGuards prev now reward total bts iv tts).drop 3 with
+      match (Gen.verifyBlockGuards prev now reward total bts iv tts).drop 4 with
       | true :: _ => .error "tx-future"
       | _ :: true :: _ => .error "tx-old"
       | _ =>
@@ -102,7 +122,7 @@ theorem C04_verifyTxs_window_gen (env : Env) (cfg : Cfg) (l : Ledger) (b : Block
           match l.utxos.calculateFee env.val cfg.minFee t b.ts with
           | .error e => .error e
           | .ok fee => Ledger.verifyTxs env cfg l b prev.toInt rest rewarded rw ((tot + fee) % U64) := by
-  rw [Gen_verifyBlockGuards_spec prev now reward total bts iv tts hno]
+  rw [Gen_verifyBlockGuards_spec prev now reward total bts iv tts hi0]
   rw [Ledger.verifyTxs]
   simp only [hr, Bool.false_eq_true, if_false, hb, ht, List.drop_succ_cons, List.drop_zero]
   by_cases h3 : bts.toInt < tts.toInt
@@ -113,17 +133,17 @@ theorem C04_verifyTxs_window_gen (env : Env) (cfg : Cfg) (l : Ledger) (b : Block
       rfl
 
 /-- **C01 (regenerated guard).**  The last condition `verifyBlock` tests — the reward exceeds the fees collected —
-    is condition 5 regenerated from the source (over Go's uint64 values). -/
+    is condition 6 regenerated from the source (over Go's uint64 values). -/
 theorem C01_verifyBlock_reward_gen (prev now : Int64) (reward total : UInt64) (bts iv tts : Int64)
-    (hno : I64ok (prev.toInt + iv.toInt)) :
-    (Gen.verifyBlockGuards prev now reward total bts iv tts)[5]? = some (decide (reward.toNat > total.toNat)) := by
-  rw [Gen_verifyBlockGuards_spec prev now reward total bts iv tts hno]
+    (hi0 : 0 ≤ iv.toInt) :
+    (Gen.verifyBlockGuards prev now reward total bts iv tts)[6]? = some (decide (reward.toNat > total.toNat)) := by
+  rw [Gen_verifyBlockGuards_spec prev now reward total bts iv tts hi0]
   rfl
 
 /-! ### every branch is taken -/
 
 example : Gen.addBlockGuards 100 100 = [true] ∧ Gen.addBlockGuards 101 100 = [false] := by decide
-example : Gen.verifyBlockGuards 100 500 0 0 160 60 0 = [false, false, false, false, true, false] := by decide
-example : Gen.verifyBlockGuards 100 150 9 8 160 60 170 = [false, false, true, true, false, true] := by decide
+example : Gen.verifyBlockGuards 100 500 0 0 160 60 0 = [false, false, false, false, false, true, false] := by decide
+example : Gen.verifyBlockGuards 100 150 9 8 160 60 170 = [false, false, false, true, true, false, true] := by decide
 
 end Ru
